@@ -118,8 +118,11 @@ def _run_main(ctx):
             r.eq('fields', cl[0].fields, {'reply_code': 'amq_protocol::protocol::constants::REPLY_SUCCESS', 'reply_text': '"goodbye"', 'class_id': '0', 'method_id': '0'},
                  ctx.site('io_loop::channel_handle::Channel0Handle::close_connection'))
         fs, evs, ret2 = A.fn_script(ctx, 'io_loop::io_loop_handle::IoLoopHandle::call_connection_close', depth=1)
-        t = S.show(ret2)
-        r.check('message-kind', 'io_loop::IoLoopMessage::ConnectionClose(' in t and 'IoLoopMessage::Send(' not in t, ctx.site('io_loop::io_loop_handle::IoLoopHandle::call_connection_close'),
+        # what is handed to the I/O thread: the message given to send (directly, or through call_message)
+        sent = [S.show(a) for e in evs if e.kind == 'call' and e.callee.split('::')[-1] in ('send', 'call_message') for a in e.args[1:]]
+        t = ' '.join(sent)
+        r.check('message-kind', sent and all(x.startswith(('io_loop::IoLoopMessage::ConnectionClose(', 'io_loop::io_loop_handle::IoLoopMessage::ConnectionClose(')) for x in sent) and S.unconditional([e for e in evs if e.kind == 'call' and e.callee.split('::')[-1] in ('send', 'call_message')][0], evs),
+                ctx.site('io_loop::io_loop_handle::IoLoopHandle::call_connection_close'),
                 built=t[:300], expected='call_message(IoLoopMessage::ConnectionClose(buf))', why='only the ConnectionClose message seals the buffer behind the frame')
         fn = ctx.fn('io_loop::io_loop_handle::IoLoopHandle::call_connection_close')
         r.eq('awaits', fn['output'], 'std::result::Result<amq_protocol::protocol::connection::CloseOk, errors::Error>', ctx.site('io_loop::io_loop_handle::IoLoopHandle::call_connection_close'))
